@@ -53,9 +53,13 @@ func c13Cases(tier string, seed int64) []core.Case {
 	for _, dotu := range []bool{true, false} {
 		dotu := dotu
 		cases = append(cases, core.Case{ID: fmt.Sprintf("server/renegotiating-stream/dotu=%v", dotu), Run: func(ctx *core.Ctx) core.Result {
-			return c13Renegotiate(ctx, dotu)
+			return c13Renegotiate(ctx, dotu, dotu)
 		}})
 	}
+	// a plain-9P2000 client of a server that also offers 9P2000.u: the Tversion decides how the bytes behind it are read
+	cases = append(cases, core.Case{ID: "server/renegotiating-stream/plain-client-of-dotu-server", Run: func(ctx *core.Ctx) core.Result {
+		return c13Renegotiate(ctx, false, true)
+	}})
 	for _, f := range ExtraC13 {
 		cases = append(cases, f(tier, seed)...)
 	}
@@ -67,7 +71,7 @@ func c13Cases(tier string, seed int64) []core.Case {
 // segment, one message per segment, one byte per segment and with cuts inside each message. What the server executes,
 // what it answers (the Rversion apart, which may or may not get out before the connection is dropped) and whether it
 // keeps the connection must be the same for every segmentation.
-func c13Renegotiate(ctx *core.Ctx, dotu bool) core.Result {
+func c13Renegotiate(ctx *core.Ctx, dotu, srvDotu bool) core.Result {
 	var res core.Result
 	ver := "9P2000"
 	if dotu {
@@ -79,7 +83,9 @@ func c13Renegotiate(ctx *core.Ctx, dotu bool) core.Result {
 		flood    int // > 0: instead, that many small independent requests behind the Tversion (more than 8 x neg bytes)
 	}
 	variants := []variant{{8192, 256, 330, 0}, {8192, 64, 65, 0}, {4096, 1024, 4096, 0}, {8192, 256, 200, 0}, {1024, 128, 129, 0}, {8192, 4096, 4097, 0},
-		{8192, 64, 0, 100}, {1 << 20, 64, 0, 300}, {8192, 128, 0, 150}, {0, 24, 0, 40}}
+		{8192, 64, 0, 100}, {1 << 20, 64, 0, 300}, {8192, 128, 0, 150}, {0, 24, 0, 40},
+		// the smallest Tattach there is (its size differs between the dialects) behind a Tversion that keeps msize
+		{8192, 8192, 1, 0}, {8192, 256, 1, 0}}
 	for vi, v := range variants {
 		tv := wire.Encode(&wire.Msg{Type: wire.Tversion, Tag: wire.NOTAG, Msize: v.neg, Version: ver}, dotu)
 		base := len(wire.Encode(&wire.Msg{Type: wire.Tattach, Tag: 1, Fid: 0, Afid: wire.NOFID, Uname: "root", Nuname: 0, Aname: ""}, dotu))
@@ -87,7 +93,11 @@ func c13Renegotiate(ctx *core.Ctx, dotu bool) core.Result {
 		if pad < 0 {
 			pad = 0
 		}
-		att := wire.Encode(&wire.Msg{Type: wire.Tattach, Tag: 1, Fid: 0, Afid: wire.NOFID, Uname: "root", Nuname: 0, Aname: strings.Repeat("a", pad)}, dotu)
+		uname := "root"
+		if v.big == 1 {
+			uname = "u" // (with names of fewer than four bytes in all, the plain Tattach is shorter than any 9P2000.u one)
+		}
+		att := wire.Encode(&wire.Msg{Type: wire.Tattach, Tag: 1, Fid: 0, Afid: wire.NOFID, Uname: uname, Nuname: 0, Aname: strings.Repeat("a", pad)}, dotu)
 		// the requests behind it do not depend on one another (they run concurrently): a flush of an unknown tag, a
 		// clunk of an unknown fid
 		st := wire.Encode(&wire.Msg{Type: wire.Tflush, Tag: 2, Oldtag: 999}, dotu)
@@ -121,7 +131,7 @@ func c13Renegotiate(ctx *core.Ctx, dotu bool) core.Result {
 		ref := ""
 		for _, name := range names {
 			ctx.Beat()
-			s := NewSess(Config{Dotu: dotu, Msize: v.srv})
+			s := NewSess(Config{Dotu: srvDotu, Msize: v.srv})
 			c := s.Dial()
 			seq0 := s.Log.Seq()
 			prev := 0
@@ -157,7 +167,7 @@ func c13Renegotiate(ctx *core.Ctx, dotu bool) core.Result {
 			got := fmt.Sprintf("executed=%v replies=%v dropped=%v", ops, tr, closed)
 			c.Hangup()
 			res.Evals++
-			res.Sig(fmt.Sprintf("renegotiate|%d|%s|%v", vi, name, dotu))
+			res.Sig(fmt.Sprintf("renegotiate|%d|%s|%v|%v", vi, name, dotu, srvDotu))
 			if ref == "" {
 				ref = got
 				if vi == 0 {
